@@ -38,9 +38,10 @@ def _path(draw, n=None, d=1):
     # pure-jump part of the path (positive, piecewise constant: a few jumps)
     jrows = []
     for _ in range(d):
-        j = [1.0]
+        # (the level of the pure-jump component is arbitrary: after thousands of small down jumps it is far below 1e-16)
+        j = [draw(st.sampled_from([1.0, 1.0, 1.0, 1.0, 3e-18, 4e5]))]
         for _ in range(n - 1):
-            j.append(float(f"{j[-1] * math.exp(draw(st.sampled_from([0.0, 0.0, -0.25, -0.08, 0.1, -0.6]))):.6g}"))
+            j.append(float(f"{j[-1] * math.exp(draw(st.sampled_from([0.0, 0.0, -0.25, -0.08, 0.1, -0.6, -1.3, -2.4]))):.6g}"))
         jrows.append(j)
     return {"times": times, "path": rows, "jump": jrows}
 
@@ -77,7 +78,11 @@ def strat_history(draw, tier):
             twin["path"][0][i] = float(f"{twin['path'][0][i] * draw(st.sampled_from([0.2, 5.0])):.6g}")
             paths.append(twin)
     ops = draw(st.lists(st.one_of(st.tuples(st.just("eval"), st.integers(0, len(paths) - 1)),
-                                  st.tuples(st.just("update"), st.sampled_from(["LOG", "IDENDITY"]))),
+                                  st.tuples(st.just("eval"), st.integers(0, len(paths) - 1)),
+                                  st.tuples(st.just("update"), st.sampled_from(["LOG", "IDENDITY"])),
+                                  # the history continues on a deep copy of the product (one configured product priced
+                                  # under several processes); the original is looked at again at the end
+                                  st.tuples(st.just("copy"), st.just("deep"))),
                         min_size=3, max_size=14))
     return {"kind": kind, "paths": paths, "ops": [list(o) for o in ops], "strike": draw(_f(40.0, 160.0)),
             "barrier": draw(_f(40.0, 160.0)), "notional": draw(st.sampled_from([1.0, 2.5, 100.0])),
@@ -125,7 +130,33 @@ def body_history(case):
     rep = "IDENDITY"
     detail = f"case kind={case['kind']} ops={case['ops']} strike={case['strike']} barrier={case['barrier']}"
     first = {}
-    for step, (op, arg) in enumerate(case["ops"]):
+    originals = []
+    for step, (op, arg) in enumerate(list(case["ops"]) + [["eval-originals", 0]]):
+        if op == "copy":
+            import copy as _copy
+
+            originals.append((prod, rep))
+            prod = _copy.deepcopy(prod)
+            continue
+        if op == "eval-originals":
+            # what the copies evaluated since must not show in the objects they were copied from
+            for k_, (orig, orep) in enumerate(originals):
+                p0 = case["paths"][0]
+                fresh = _make_product(case)
+                if orep == "LOG":
+                    fresh.update(_rep("LOG"))
+                try:
+                    got, exp = _evaluate(orig, p0, orep, False), _evaluate(fresh, p0, orep, False)
+                except Exception as e:  # noqa: BLE001
+                    out.append(Violation(f"C17/history/{case['kind']}/evaluation-raises/{type(e).__name__}",
+                                         f"original of copy {k_} ({orep}): {e!r}; {detail}"))
+                    return out
+                if got != exp and not (math.isnan(got) and math.isnan(exp)):
+                    out.append(Violation(f"C17/history/{case['kind']}/original-changed-by-what-its-deep-copy-evaluated",
+                                         f"original of copy {k_}: path 0 in {orep} representation valued {got!r}, {exp!r} by "
+                                         f"a fresh product; {detail}"))
+                    return out
+            continue
         if op == "update":
             # the barrier payoff scans the raw path: the engines only switch representation before any evaluation, and a
             # barrier in log-representation would need log-barriers; keep barrier products in identity representation
@@ -172,6 +203,8 @@ def classify_history(case):
     reps = [o[1] for o in case["ops"] if o[0] == "update"]
     if "LOG" in reps and "IDENDITY" in reps[reps.index("LOG"):]:
         labels.append("log-then-identity")
+    if "copy" in ops and "eval" in ops[ops.index("copy"):]:
+        labels.append("deep-copy-then-evaluate")
     nevals = sum(1 for o in ops if o == "eval")
     return labels, (nevals >= 2 and (case["kind"].startswith("barrier") or switched))
 
@@ -186,8 +219,14 @@ def strat_underlying(draw, tier):
     kind = draw(st.sampled_from(UNDERLYINGS))
     d = 1 if kind in ("asian", "defaulttime") else draw(st.sampled_from([2, 3])) if kind not in ("spot", "libors", "logspot") else draw(st.sampled_from([1, 2]))
     p = draw(_path(d=d))
-    return {"kind": kind, "d": d, "path": p, "index": draw(st.integers(1, d)), "levels": [-draw(_f(0.05, 0.5)) for _ in range(d)],
-            "thresholds": [draw(_f(30.0, 150.0)) for _ in range(d)], "spots": [draw(_f(20.0, 200.0)) for _ in range(d)]}
+    levels = [-draw(_f(0.05, 0.5)) for _ in range(d)]
+    if draw(st.integers(0, 5)) == 0:  # thresholds written as python integers (a default = a log-jump below -1, -2)
+        levels = [-draw(st.integers(1, 2)) for _ in range(d)]
+    return {"kind": kind, "d": d, "path": p, "index": draw(st.integers(1, d)), "levels": levels,
+            "thresholds": [draw(_f(30.0, 150.0)) for _ in range(d)], "spots": [draw(_f(20.0, 200.0)) for _ in range(d)],
+            # the underlying is used on its own or as the payoff underlying of a product (the engines' route: the product
+            # is switched to the process representation and asked for the underlying value)
+            "via_product": draw(st.booleans())}
 
 
 def _make_underlying(case):
@@ -211,9 +250,17 @@ def body_underlying(case):
     vals = {}
     for rep in ("IDENDITY", "LOG"):
         u = _make_underlying(case)
-        u.update(_rep(rep))
         try:
-            v = u.value(times, _arr(p, "path", rep), _arr(p, "jump", rep))
+            if case.get("via_product"):
+                from rpylib.product.payoff import Forward
+                from rpylib.product.product import Product
+
+                prod = Product(payoff_underlying=u, payoff=Forward(strike=0.0), maturity=float(times[-1]))
+                prod.update(_rep(rep))
+                v = prod.underlying_value(times, _arr(p, "path", rep), _arr(p, "jump", rep))
+            else:
+                u.update(_rep(rep))
+                v = u.value(times, _arr(p, "path", rep), _arr(p, "jump", rep))
         except Exception as e:  # noqa: BLE001
             out.append(Violation(f"C17/underlying/{kind}/{rep.lower()}-representation-raises/{type(e).__name__}",
                                  f"{e!r}; {detail}"))
@@ -375,16 +422,23 @@ def body_underlying_history(case):
     """one underlying object valued on a sequence of paths (and switched between representations): every value equals
     the one a fresh object gives for that path alone"""
     u = _make_underlying(case)
+    holder = u
+    if case.get("via_product"):  # the history runs through a product holding the underlying (fresh objects do not)
+        from rpylib.product.payoff import Forward
+        from rpylib.product.product import Product
+
+        holder = Product(payoff_underlying=u, payoff=Forward(strike=0.0), maturity=float(case["paths"][0]["times"][-1]))
     rep = "IDENDITY"
     kind = case["kind"]
     for step, (op, arg) in enumerate(case["ops"]):
         if op == "update":
-            u.update(_rep(arg))
+            holder.update(_rep(arg))
             rep = arg
             continue
         p = case["paths"][arg]
         times = np.array(p["times"], dtype=float)
-        got = np.array(u.value(times, _arr(p, "path", rep), _arr(p, "jump", rep)), dtype=float)
+        value = holder.underlying_value if holder is not u else u.value
+        got = np.array(value(times, _arr(p, "path", rep), _arr(p, "jump", rep)), dtype=float)
         fresh = _make_underlying(case)
         fresh.update(_rep(rep))
         exp = np.array(fresh.value(times, _arr(p, "path", rep), _arr(p, "jump", rep)), dtype=float)
